@@ -193,6 +193,8 @@ where
 
     /// A copy of all the entries in the map. Values are arc'd so they are cheap, though not free, copies.
     pub fn all(&self) -> Vec<(I, Arc<T>)> {
+        #[cfg(feature = "verif_hooks")]
+        fontdrasil::orchestration::verif::record_read_all(std::any::type_name::<T>());
         self.value
             .read()
             .iter()
@@ -236,6 +238,8 @@ where
     pub fn set_unconditionally(&self, value: T) {
         let key = value.id();
         self.acl.assert_write_access(&key);
+        #[cfg(feature = "verif_hooks")]
+        fontdrasil::orchestration::verif::record_map_write(std::any::type_name::<T>(), &key);
 
         if self.persistent_storage.active() {
             let mut writer = self.persistent_storage.writer(&key);
